@@ -7,7 +7,8 @@
                                 (no call raised), then close(); w is the wrapper afterwards. *)
 Require Import OV.Base.Bytes OV.Base.Py OV.Base.C06_WrapShape OV.Base.Insp_Struct.
 Require Import OV.Gen.Insp_Consts OV.Gen.C06_Wrapper OV.Model.Insp_Engine OV.Model.Insp_All OV.Model.Wrap OV.Model.C03.
-Require Import OV.Proofs.Insp_All OV.Proofs.C03_Wrap OV.Proofs.C03_Props OV.Proofs.C03_Examples.
+Require Import OV.Model.C01_Vhdx OV.Model.C01_Vmdk OV.Proofs.C01_Vhdx_Witness.
+Require Import OV.Proofs.Insp_All OV.Proofs.C03_Wrap OV.Proofs.C03_Stable OV.Proofs.C03_Props OV.Proofs.C03_All OV.Proofs.C03_Examples.
 Open Scope N_scope.
 
 (* each static inspector of the collection ends in spec_state f (content): position |content|, every
@@ -43,3 +44,36 @@ Print Assumptions C01_wrapper_static_match.
 Example C01_wrapper_static_allowed :
   forallb is_static (allowed_fmts [fmt_name F_qcow2; fmt_name F_vhd; fmt_name F_iso; fmt_name F_raw]) = true.
 Proof. exact ex_static_allowed. Qed.
+
+(* ================================================================== all ten formats (outside the known zones) *)
+(* in_zone f b: F2 or F4 for vhdx, F1 or F3 for vmdk, never for the eight static formats.  Under the wrapper an
+   inspector that raised is FROZEN (not aborted): [run f cs] is exactly that state (feeding stops at the first
+   exception, finish() still runs), and C01_vhdx_refines_spec / C01_vmdk_refines_spec are about it, so the frozen
+   verdict is chunk-independent outside the zones; inside F4 it is not (C01_refuted_vhdx_metasig). *)
+Theorem C01_run_verdict_all : forall f cs, in_zone f (concat cs) = false -> verdict_of (run f cs) = spec_verdict_all f (concat cs).
+Proof. exact run_verdict_all. Qed.
+Print Assumptions C01_run_verdict_all.
+
+(* "... or the InspectWrapper running all of them": for every allowed_formats, after read-through and close, outside
+   the zones of the allowed formats: the verdict (escaped exception, format_match, complete, virtual_size,
+   safety_check) of EVERY inspector the wrapper holds, and format / formats, are functions of the content alone *)
+Theorem C01_wrapper_verdict_all : forall expected allowed cs w,
+  read_and_closed expected allowed cs w -> outside_zones allowed (concat cs) ->
+  (forall f, In f (allowed_fmts allowed) ->
+     In (slot_closed cs f) (w_slots w) /\ verdict_of (run f cs) = spec_verdict_all f (concat cs)) /\
+  cw_format_name w = spec_format allowed (concat cs) /\
+  option_map (map (@s_name istate)) (cw_formats w) = spec_formats allowed (concat cs).
+Proof. exact wrapper_verdict_all. Qed.
+Print Assumptions C01_wrapper_verdict_all.
+
+Theorem C01_wrapper_verdict_all_chunking : forall expected allowed cs1 cs2 w1 w2,
+  read_and_closed expected allowed cs1 w1 -> read_and_closed expected allowed cs2 w2 ->
+  concat cs1 = concat cs2 -> outside_zones allowed (concat cs1) ->
+  cw_format_name w1 = cw_format_name w2 /\
+  option_map (map (@s_name istate)) (cw_formats w1) = option_map (map (@s_name istate)) (cw_formats w2) /\
+  (forall f, In f (allowed_fmts allowed) -> verdict_of (run f cs1) = verdict_of (run f cs2)).
+Proof. exact wrapper_verdict_all_chunking. Qed.
+Print Assumptions C01_wrapper_verdict_all_chunking.
+
+Example C01_wrapper_outside_zones : outside_zones [fmt_name F_vhdx; fmt_name F_qcow2; fmt_name F_raw] wf_image.
+Proof. exact ex_outside_zones. Qed.
